@@ -1,14 +1,40 @@
 /-
   C09  Each host gets the right user, transport, rank and the verbatim command.
-  PROPERTY THEOREMS ONLY (helper lemmas: PdshVerif/Exec/Lemmas.lean, PdshVerif/Opt/RcmdLemmas.lean).
+  PROPERTY THEOREMS ONLY (helper lemmas: PdshVerif/Exec/{Lemmas,XrcmdLemmas,XrcmdThms,XrcmdSpec}.lean,
+  PdshVerif/Opt/RcmdLemmas.lean).
 
-  Models: Exec/Format.lean (pipecmd_format_arg / cmd_args_create char loop with explicit C memory,
-  xrcmd's request), Opt/Rcmd.lean (get_host_rcmd_type, first-wins registry, defaults, rank).
+  Models: Exec/Format.lean (pipecmd_format_arg / cmd_args_create char loop with explicit C memory),
+          Exec/EndToEnd.lean (execcmd + pipecmd call, xrcmd's writes), Exec/Xrcmd.lean (xrcmd's connection
+          set-up: privileged-port loop, EADDRINUSE / ECONNREFUSED handling with back-off, stderr back-connection,
+          request, peer's verdict -- the network is a parameter), Exec/Ssh.lean (sshcmd.c),
+          Opt/Rcmd.lean (get_host_rcmd_type, first-wins registry, defaults, rank).
   Specs:  Exec/Spec.lean (greedy tokenisation + per-token rendering; four NUL-terminated fields),
+          Exec/XrcmdSpec.lean (what an observer of the sockets demands of the handshake),
           Opt/RcmdSpec.lean (first annotated word naming the host, else the defaults chain).
 
-  What is NOT proved here: anything about hostlist.c (host expansion is a parameter of the model),
-  the transports themselves, and that the C code equals the model (that is the correspondence check).
+  clause of the property text                          theorem(s)
+  ---------------------------------------------------  -------------------------------------------------------
+  type/user of the FIRST `type:user@hosts` word         first_word_wins(_reexpand), run_eq_spec(_reexpand),
+    naming the host                                       rcmd_lookup_exact (whole-name key: n1 / n10)
+  otherwise -R / PDSH_RCMD_TYPE and -l, otherwise       defaults_chain, defaultName_eq, last_R_wins_R_over_env,
+    the documented defaults                               last_l_wins (composed with C18.precedence)
+  rank = zero-based position in the FINAL list          rank_is_position, contacted_as_specified (composed with
+                                                          C02/C10: the list after exclusions and filters)
+  command text reaches the transport unchanged          exec_end_to_end, rsh_end_to_end, ssh_command_verbatim(_repaired)
+  rsh: request = port, luser, ruser, cmd, NUL each      rshRequest_roundtrip, xrcmd_writes_request, wire_request_exact,
+                                                          request_length; with the connection set-up:
+                                                          xrcmd_meets_spec, xrcmd_request_stderr (the port announced is
+                                                          the port that is listening), xrcmd_request_plain (no stderr
+                                                          channel), xrcmd_unconnected_silent
+  exec: %h %u %n %% replaced, everything else kept      formatArg_spec(_partial), escapes_replaced, unknown_preserved,
+                                                          no_percent_id, argv_length_preserved, exec_argv_exact,
+                                                          exec_argv_interactive; witnesses d10_*, d11_witness
+  host expansion (hostlist.c)                            NOT re-proved here: imported -- contacted_as_specified takes
+                                                          the final list from C02's cliWords_correct (and C10 for files)
+
+  NOT proved: that the C code equals the models (correspondence checks (a)-(f) of checks/c09.py); rresvport(),
+  connect(), xpoll(), accept() themselves (parameters of Exec/Xrcmd.lean: `World`); write(2) failing or being
+  short; the limit on the length of a user name (login_name_max_len: refused by opt.c, C18's subject).
 -/
 import PdshVerif.Exec.Lemmas
 import PdshVerif.Exec.EndToEnd
